@@ -35,7 +35,7 @@ def run(rep, tier):
         tier_table(rep, "T8-insertEntry-point", "insertEntry", "point", k, new_point, MODES,
                    lambda I, t, sy, mode: I.call_value(I.getattr(t, "insertEntry"), [Tup(list(sy["new"]), "Point"), mode[0], mode[1]], {}),
                    lambda O, ents, m, M, sy, mode: specs.insert_entry_point(O, ents, m, M, sy["new"], mode[0], mode[1]),
-                   "%d generic points x new point" % k)
+                   "%d generic points x new point" % k, strict_ties=True)
 
     # deleteEntry: present entry i removed; absent entry raises
     for kind in ("interval", "point"):
